@@ -147,7 +147,7 @@ func NewTable(ws *WS) *Table {
 				case *Field:
 					addField(full, x, false)
 					if fl.Syntax == "proto3" && x.Label == "optional" {
-						add(qual(full, "_"+x.Name), KOneof, fl.Name, x)
+						add(qual(full, SyntheticOneofNames(m)[x]), KOneof, fl.Name, x)
 					}
 				case *Oneof:
 					add(qual(full, x.Name), KOneof, fl.Name, x)
@@ -281,4 +281,47 @@ func (t *Table) Lookup(file, name, relativeTo string, typesOnly bool) (Sym, bool
 			}
 		}
 	}
+}
+
+// SyntheticOneofNames gives the names of the synthetic oneofs of a proto3 message's `optional`
+// fields (protoc's Parser::GenerateSyntheticOneofs): `_` is prepended unless the field name
+// already starts with one, then `X` as often as needed to avoid the names of the message's fields,
+// of its declared oneofs and of the synthetic oneofs made so far.
+func SyntheticOneofNames(m *Msg) map[*Field]string {
+	names := map[string]bool{}
+	var fields []*Field
+	fieldName := func(f *Field) string {
+		if f.Group != nil {
+			return lowerFirstAll(f.Group.Name)
+		}
+		return f.Name
+	}
+	for _, d := range m.Body {
+		switch d := d.(type) {
+		case *Field:
+			fields = append(fields, d)
+			names[fieldName(d)] = true
+		case *Oneof:
+			names[d.Name] = true
+			for _, f := range d.Fields {
+				names[fieldName(f)] = true
+			}
+		}
+	}
+	out := map[*Field]string{}
+	for _, f := range fields {
+		if f.Label != "optional" {
+			continue
+		}
+		name := fieldName(f)
+		if !strings.HasPrefix(name, "_") {
+			name = "_" + name
+		}
+		for names[name] {
+			name = "X" + name
+		}
+		names[name] = true
+		out[f] = name
+	}
+	return out
 }
